@@ -359,6 +359,25 @@ fn gen_onnx(rng: &mut Rng, quick: bool, cands: &[Vec<i64>], scale: usize) -> Vec
         f_bytes(&mut m, 8, &ops);
         v.push(FCase { fmt: "onnx", gen_name: "f32/raw/gathernd-probe".into(), mutation: label.into(), bytes: m, ext: None });
     }
+    // consistently inflated chains of lengths (a field declares far more bytes
+    // than the file holds, every enclosing message agrees), every site of
+    // three documents incl. packed float/double/int data, raw_data, strings
+    for (name, items) in crate::proto::base_docs() {
+        if !(name == "identity" || name == "tensors" || name == "subgraph") {
+            continue;
+        }
+        let nsites = crate::pb::sites(&items).len();
+        for i in 0..nsites {
+            for (lname, l) in crate::proto::INFLATED_LENS {
+                if quick && !(*lname == "2^40" || *lname == "2^63+8") {
+                    continue;
+                }
+                if let Some((bytes, s)) = crate::pb::encode_inflated(&items, i, *l) {
+                    v.push(FCase { fmt: "onnx", gen_name: format!("inflate:{name}"), mutation: format!("{} field at depth {} declares {lname} bytes, ancestors agree", s.kind, s.depth), bytes, ext: None });
+                }
+            }
+        }
+    }
     // unsupported / missing data types, external data that is missing
     for dt in [0, 8, 12, 16, 99] {
         v.push(FCase { fmt: "onnx", gen_name: "dtype".into(), mutation: format!("data type {dt}"), bytes: onnx_model(dt, &[2], &Src::Raw(vec![0; 8]), false), ext: None });
@@ -592,6 +611,7 @@ fn run_case(item: &Value) {
     let ext = item["ext"].as_str().map(unhex);
     let dir = tempfile::tempdir().expect("temp dir");
     let path = dir.path().join(if fmt == "onnx" { "m.onnx" } else { "m.rten" });
+    crate::track::reset();
     let loaded = std::panic::catch_unwind(std::panic::AssertUnwindSafe(|| {
         let mut opts = rten::ModelOptions::with_all_ops();
         match api {
@@ -614,21 +634,22 @@ fn run_case(item: &Value) {
             }
         }
     }));
+    let maxalloc = limbs(crate::track::max_request());
     let model = match loaded {
         Err(e) => {
             let m = panic_msg(e);
-            println!("{}", json!({"ev": "load", "outcome": "panic", "err": sanitize(&m), "errclass": err_class(&m)}));
+            println!("{}", json!({"ev": "load", "outcome": "panic", "err": sanitize(&m), "errclass": err_class(&m), "maxalloc": maxalloc}));
             println!("{}", json!({"ev": "run", "outcome": "skipped", "detail": ""}));
             return;
         }
         Ok(Err(e)) => {
-            println!("{}", json!({"ev": "load", "outcome": "err", "err": sanitize(&e.to_string()), "errclass": ""}));
+            println!("{}", json!({"ev": "load", "outcome": "err", "err": sanitize(&e.to_string()), "errclass": "", "maxalloc": maxalloc}));
             println!("{}", json!({"ev": "run", "outcome": "skipped", "detail": ""}));
             return;
         }
         Ok(Ok(m)) => m,
     };
-    println!("{}", json!({"ev": "load", "outcome": "ok", "err": "", "errclass": ""}));
+    println!("{}", json!({"ev": "load", "outcome": "ok", "err": "", "errclass": "", "maxalloc": maxalloc}));
     let mut n = 0;
     for (_, node) in model.verif_graph().iter() {
         if let rten::verif::Node::Constant(c) = node {
@@ -752,7 +773,7 @@ pub fn main_fuzz() {
         let mut cases = gen_onnx(&mut rng, quick, &cands_used, scale);
         cases.extend(gen_rten(&mut rng, quick, &cands_used, scale));
         for c in cases {
-            let apis: &[&'static str] = if c.fmt == "rten" || !quick { &["load", "load_file", "load_mmap"] } else { &["load", "load_file"] };
+            let apis: &[&'static str] = if c.fmt == "rten" || !quick || c.gen_name.starts_with("inflate") { &["load", "load_file", "load_mmap"] } else { &["load", "load_file"] };
             for api in apis {
                 jobs.push((c.clone(), api));
             }
@@ -834,7 +855,7 @@ pub fn main_fuzz() {
             ""
         };
         if !have_load {
-            tr.emit(json!({"ev": "load", "outcome": if died.is_empty() { "panic" } else { died }, "err": detail.clone(), "errclass": errclass}));
+            tr.emit(json!({"ev": "load", "outcome": if died.is_empty() { "panic" } else { died }, "err": detail.clone(), "errclass": errclass, "maxalloc": []}));
             tr.emit(json!({"ev": "run", "outcome": "skipped", "detail": ""}));
         } else if !have_run {
             tr.emit(json!({"ev": "run", "outcome": if died.is_empty() { "panic" } else { died }, "detail": detail}));
